@@ -13,13 +13,13 @@ ID = "C12"
 LEVEL = "exploration"
 RULE = ("documents per format: JSON / JSON5 / CSV over the whole value domain (every Unicode scalar class, escapes, quotes, "
         "separators, embedded newlines, empty containers, deep nesting, extreme numbers), YAML / plist / XML over plain "
-        "alphanumeric scalars with unrestricted structure; routes: library formatter and in-process CLI (file diffed against "
-        "itself); non-trivial = document has >= 3 nodes; distinct = distinct (format, document, route)")
+        "alphanumeric scalars with unrestricted structure; routes: library formatter, in-process CLI with --no-status into memory, "
+        "and in-process CLI as a default command line runs (status output on, real file descriptors), file diffed against itself; non-trivial = document has >= 3 nodes; distinct = distinct (format, document, route)")
 ASSUMPTIONS = ["NaN is never generated; inputs that the reference writer and the loader already disagree on before printing are dropped and counted",
                "'same document' = equal values through children()/.object/.key/.value (XML text stripped) and zero-cost diff both ways"]
-MINIMUMS = {"quick": {"roundtrips:json": 1000, "roundtrips:json5": 60, "roundtrips:csv": 1000, "roundtrips:yaml": 800,
+MINIMUMS = {"quick": {"route:cli-default": 800, "roundtrips:json": 1000, "roundtrips:json5": 60, "roundtrips:csv": 1000, "roundtrips:yaml": 800,
                       "roundtrips:plist": 800, "roundtrips:xml": 800},
-            "thorough": {"roundtrips:json": 30000, "roundtrips:json5": 3000, "roundtrips:csv": 30000, "roundtrips:yaml": 25000,
+            "thorough": {"route:cli-default": 20000, "roundtrips:json": 30000, "roundtrips:json5": 3000, "roundtrips:csv": 30000, "roundtrips:yaml": 25000,
                          "roundtrips:plist": 25000, "roundtrips:xml": 25000}}
 FORMATS = ["json", "json5", "csv", "yaml", "plist", "xml"]
 
@@ -152,7 +152,9 @@ def gen_cases(spec, ctx):
             idx += 1
         return
     for i in range(spec["n"]):
-        route = "cli" if i % 5 == 0 else "library"
+        # routes: the library formatter; main() with --no-status into an in-memory stream; main() the way a default command line
+        # runs it (status output on, stdout/stderr with real file descriptors => StatusWriter's buffered line-splitting path)
+        route = "cli" if i % 5 == 0 else ("cli-default" if i % 5 == 1 else "library")
         if f in ("json", "json5"):
             doc = json_doc(r) if r.random() < 0.93 else deep(r, r.choice([6, 10, 14]))
         elif f == "csv":
@@ -167,14 +169,24 @@ def gen_cases(spec, ctx):
             if f == "yaml" and clean and (_has_empty_container(doc)):
                 continue
         elif f == "xml":
-            doc = families.gen_xml(r)
+            doc = _plain_xml(families.gen_xml(r))
         yield {"format": f, "doc": doc, "route": route}
+
+
+def _plain_xml(x):
+    """The property's XML domain is plain alphanumeric content."""
+    t, at, tx, kids = x
+    fix = lambda s: s if s is None or s.isalnum() or s == "" else "abc"   # noqa
+    return [t, {k: fix(v) for k, v in at.items()}, fix(tx), [_plain_xml(k) for k in kids]]
 
 
 def render(ftype, tree, path, route):
     import graphtage.printer as gp
-    if route == "cli":
-        res = monitors.run_main(["--no-status", "--no-color", path, path])
+    if route in ("cli", "cli-default"):
+        if route == "cli":
+            res = monitors.run_main(["--no-status", "--no-color", path, path])
+        else:
+            res = monitors.run_main([path, path], real_files=True)
         if res.exc is not None:
             raise res.exc
         if res.rc != 0:
